@@ -21,6 +21,7 @@ type c15Case struct {
 	Job    jobSpec   `json:"job"`
 	Groups []grpSpec `json:"groups"`
 	Perm   int64     `json:"perm"`
+	Long   int       `json:"long,omitempty"` // > 0: every group also carries an annotation-like label of this length plus three short labels
 }
 
 func recC15() *vkit.Recorder {
@@ -241,6 +242,65 @@ func runC15(rec *vkit.Recorder, c *c15Case) []vkit.Violation {
 			rec.Class("edit/" + e.name)
 		}
 	}
+	// the same discovery object after a reload that changes the job's URL settings, fed the very same
+	// group objects again (the Prometheus SD manager re-sends unchanged groups by pointer), must agree
+	// with a fresh discovery that only ever saw the new configuration
+	if len(c.Job.Rules) == 0 {
+		j2 := c.Job
+		j2.Path = c.Job.Path + "/reloaded"
+		if !strings.HasPrefix(j2.Path, "/") {
+			j2.Path = "/" + j2.Path
+		}
+		j2.Params = map[string][]string{"reloaded": {"1"}}
+		info1, err1 := loadInfo(configText(&c.Job))
+		info2, err2 := loadInfo(configText(&j2))
+		if err1 == nil && err2 == nil {
+			r := newRunner()
+			objs := groupsOf(c.Groups)
+			_ = r.d.ApplyConfig(info1)
+			_, _ = r.feed(map[string][]*targetgroup.Group{c.Job.Name: objs})
+			_ = r.d.ApplyConfig(info2)
+			_, _ = r.feed(map[string][]*targetgroup.Group{c.Job.Name: objs})
+			var got []uint64
+			for h := range r.d.ActiveTargetsByHash() {
+				got = append(got, h)
+			}
+			sort.Slice(got, func(i, j int) bool { return got[i] < got[j] })
+			r.close()
+			_, want, _, err := hashesOf(&j2, c.Groups)
+			if err == nil && !eq(got, want) {
+				add("C15/hash-depends-on-reload-history", "after a reload that changes path and params and a re-delivery of the same groups the hashes are %v, a fresh process computes %v", got, want)
+			}
+			rec.Class("reload-then-same-group-objects")
+		}
+	}
+	// large label sets: an edit of any single short label must change the hash, wherever that label
+	// falls in the serialized label set
+	if c.Long > 0 && len(c.Job.Rules) == 0 && len(set) > 0 {
+		for _, name := range []string{"rack", "team", "zone"} {
+			var cc c15Case
+			b, _ := json.Marshal(c)
+			_ = json.Unmarshal(b, &cc)
+			for i := range cc.Groups {
+				cc.Groups[i].Labels[name] = cc.Groups[i].Labels[name] + "-edited"
+				for _, tt := range cc.Groups[i].Targets {
+					delete(tt, name)
+				}
+			}
+			_, s2, _, err := hashesOf(&cc.Job, cc.Groups)
+			if err != nil {
+				continue
+			}
+			for _, h := range s2 {
+				for _, o := range set {
+					if h == o {
+						add("C15/edit-keeps-hash/label-in-large-set", "hash %d survives an edit of label %q in a label set with a %d byte annotation", h, name, c.Long)
+					}
+				}
+			}
+		}
+		rec.Class("large-label-set")
+	}
 	nt := false
 	for _, g := range c.Groups {
 		if len(g.Targets) >= 2 && len(g.Labels) >= 1 {
@@ -281,6 +341,21 @@ func genC15(t *rapid.T) *c15Case {
 		c.Groups = append(c.Groups, g)
 	}
 	c.Perm = int64(rapid.IntRange(1, 1<<20).Draw(t, "perm"))
+	if rapid.IntRange(0, 3).Draw(t, "long") == 0 {
+		c.Long = rapid.IntRange(700, 1200).Draw(t, "longLen")
+		for i := range c.Groups {
+			if c.Groups[i].Labels == nil {
+				c.Groups[i].Labels = map[string]string{}
+			}
+			c.Groups[i].Labels["a_annotation"] = strings.Repeat("x", c.Long)
+			c.Groups[i].Labels["rack"] = "r1"
+			c.Groups[i].Labels["team"] = "t1"
+			c.Groups[i].Labels["zone"] = "z1"
+			for _, tt := range c.Groups[i].Targets {
+				delete(tt, "zone")
+			}
+		}
+	}
 	return c
 }
 
